@@ -23,8 +23,9 @@ import (
 const sw = pilosa.ShardWidth
 
 type prop struct {
-	s   *srv.Server
-	idx int
+	s     *srv.Server
+	idx   int
+	hangs int
 }
 
 func (p *prop) Rule() string {
@@ -334,6 +335,9 @@ func (p *prop) query(st *caseState, q string) ([]interface{}, string) {
 		r   []interface{}
 		err error
 	}
+	if p.hangs >= 3 {
+		return nil, "hang:skipped" // enough lost goroutines for one process
+	}
 	ch := make(chan res, 1)
 	go func() {
 		r, err := p.s.Query(st.index, q, []uint64{0, 1, 2})
@@ -349,10 +353,10 @@ func (p *prop) query(st *caseState, q string) ([]interface{}, string) {
 		}
 		return x.r, ""
 	case <-time.After(20 * time.Second):
-		// the executor goroutine is lost; start a fresh server for the following cases
-		old := p.s
+		// The executor goroutine is lost (it may spin forever). Leave that server alone — stopping
+		// it makes the lost goroutine panic the whole process — and continue on a fresh one.
+		p.hangs++
 		p.s = srv.Start(1)
-		go old.Stop()
 		st.index = ""
 		return nil, "hang:query"
 	}
